@@ -7,6 +7,7 @@ import (
 	"fmt"
 	"math"
 	"os"
+	"sort"
 	"strings"
 	"time"
 
@@ -161,22 +162,66 @@ func inCorridor(rs []autog.VerifRect, x, y float64) bool {
 	return false
 }
 
+// segInside decides EXACTLY (up to 1e-9) whether the segment a-b lies in the union of the rectangles, which are
+// stacked bands: inside a band the segment is a straight piece, so it is enough to look at the two points where it
+// enters and leaves the band; a horizontal segment must be covered by the x-ranges of the bands that contain its y.
+// (Dense sampling is not good enough here: a segment that cuts a corner between two samples makes the reference
+// path shorter than any path inside the corridor.)
+func segInside(rs []autog.VerifRect, a, b [2]float64) bool {
+	const eps = 1e-9
+	if math.Abs(a[1]-b[1]) <= eps {
+		lo, hi := math.Min(a[0], b[0]), math.Max(a[0], b[0])
+		// union of the x-ranges of the bands containing this ordinate, swept left to right
+		type iv struct{ l, h float64 }
+		var ivs []iv
+		for _, r := range rs {
+			if a[1] >= r.TLY-eps && a[1] <= r.BRY+eps {
+				ivs = append(ivs, iv{r.TLX, r.BRX})
+			}
+		}
+		sort.Slice(ivs, func(i, j int) bool { return ivs[i].l < ivs[j].l })
+		at := lo
+		for _, v := range ivs {
+			if v.l <= at+eps && v.h > at {
+				at = v.h
+			}
+		}
+		return len(ivs) > 0 && at >= hi-eps
+	}
+	ylo, yhi := math.Min(a[1], b[1]), math.Max(a[1], b[1])
+	xAt := func(y float64) float64 { return a[0] + (y-a[1])/(b[1]-a[1])*(b[0]-a[0]) }
+	covered := ylo
+	// bands in order of their top
+	bands := append([]autog.VerifRect(nil), rs...)
+	sort.Slice(bands, func(i, j int) bool { return bands[i].TLY < bands[j].TLY })
+	for _, r := range bands {
+		y0, y1 := math.Max(ylo, r.TLY), math.Min(yhi, r.BRY)
+		if y1 < y0-eps {
+			continue
+		}
+		if y1-y0 <= eps {
+			continue // touches the band in one point only: that point also belongs to the neighbouring band or is an end point
+		}
+		for _, y := range []float64{y0, y1} {
+			if x := xAt(y); x < r.TLX-eps || x > r.BRX+eps {
+				return false
+			}
+		}
+		if y0 <= covered+eps && y1 > covered {
+			covered = y1
+		}
+	}
+	return covered >= yhi-eps
+}
+
 // reference shortest path length: Dijkstra over the visibility graph of start, end and all rectangle corners,
-// visibility tested by dense sampling (a test oracle, deliberately independent of the funnel algorithm)
+// visibility decided exactly (a test oracle, deliberately independent of the funnel algorithm)
 func refShortest(c corridor) float64 {
 	pts := [][2]float64{c.Start, c.End}
 	for _, r := range c.Rects {
 		pts = append(pts, [2]float64{r.TLX, r.TLY}, [2]float64{r.BRX, r.TLY}, [2]float64{r.TLX, r.BRY}, [2]float64{r.BRX, r.BRY})
 	}
-	vis := func(a, b [2]float64) bool {
-		for k := 0; k <= 400; k++ {
-			t := float64(k) / 400
-			if !inCorridor(c.Rects, a[0]+t*(b[0]-a[0]), a[1]+t*(b[1]-a[1])) {
-				return false
-			}
-		}
-		return true
-	}
+	vis := func(a, b [2]float64) bool { return segInside(c.Rects, a, b) }
 	n := len(pts)
 	dist := make([]float64, n)
 	doneN := make([]bool, n)
@@ -223,12 +268,8 @@ func checkC19(c corridor) []string {
 	length := 0.0
 	for i := 1; i < len(p); i++ {
 		length += math.Hypot(p[i][0]-p[i-1][0], p[i][1]-p[i-1][1])
-		for k := 0; k <= 200; k++ {
-			t := float64(k) / 200
-			if !inCorridor(c.Rects, p[i-1][0]+t*(p[i][0]-p[i-1][0]), p[i-1][1]+t*(p[i][1]-p[i-1][1])) {
-				v = append(v, fmt.Sprintf("segment %v -> %v leaves the corridor", p[i-1], p[i]))
-				break
-			}
+		if !segInside(c.Rects, p[i-1], p[i]) {
+			v = append(v, fmt.Sprintf("segment %v -> %v leaves the corridor", p[i-1], p[i]))
 		}
 	}
 	if ref := refShortest(c); math.Abs(length-ref) > 1e-6*math.Max(1, ref) {
@@ -281,13 +322,14 @@ func runGeom(fs *flag.FlagSet, prop string, seed uint64, n int, outDir, file str
 			hangs++
 		}
 		c.Checks = map[string]string{}
+		if c.Panic == "skipped" {
+			cases = append(cases, c)
+			continue
+		}
 		if msgs := checkC19(c); len(msgs) > 0 {
 			c.Checks["C19"] = strings.Join(msgs, "; ")
 		}
 		cases = append(cases, c)
-		if c.Panic == "skipped" {
-			continue
-		}
 		rs := make([]string, len(c.Rects))
 		for j, rc := range c.Rects {
 			rs[j] = rectLit(rc)
